@@ -244,7 +244,40 @@ func (fv *FV) callAppend(st *State, ins ssa.CallInstruction, v ssa.Value, args [
 // ---------------------------------------------------------------------------
 // static calls
 
+// watchedName: the name under which contracts refer to a callee in lastresult()/lastarg()/atlast().
+func watchedName(callee *ssa.Function) string {
+	n := callee.Name()
+	if i := strings.Index(n, "["); i > 0 {
+		n = n[:i]
+	}
+	return n
+}
+
 func (fv *FV) callStatic(st *State, ins ssa.CallInstruction, v ssa.Value, callee *ssa.Function, args []string, mc *ssa.MakeClosure) {
+	wn := watchedName(callee)
+	if !fv.eng.watched[wn] {
+		fv.callStaticInner(st, ins, v, callee, args, mc)
+		return
+	}
+	snap := st.clone()
+	sig := callee.Signature
+	rec := &lastCall{snap: snap, valid: "true"}
+	for i, a := range args {
+		if i < sig.Params().Len() {
+			rec.args = append(rec.args, SVal{a, sig.Params().At(i).Type()})
+		}
+	}
+	fv.callStaticInner(st, ins, v, callee, args, mc)
+	if v != nil && sig.Results().Len() == 1 {
+		rec.res = []SVal{{fv.val(st, v), sig.Results().At(0).Type()}}
+	}
+	if st.last == nil {
+		st.last = map[string]*lastCall{}
+	}
+	st.last[wn] = rec
+}
+
+func (fv *FV) callStaticInner(st *State, ins ssa.CallInstruction, v ssa.Value, callee *ssa.Function, args []string, mc *ssa.MakeClosure) {
 	pos := ins.Pos()
 	name := originName(callee)
 	fv.calleesUsed[name] = true
